@@ -4,6 +4,29 @@ From Shexer Require Import Lib.PyStr Lib.Dict Gen.Consts Gen.ConstsC15 Spec.Rdf 
      Model.Tracker Model.Endpoint.
 Import ListNotations.
 
+(** ** the class pass on the names domain ([C15_names_dom]): the classes query
+    asks for the instantiation property and the keyword removal changes no
+    name.  [class_pass] equals it there ([class_pass_names], Proofs/EndpointMain.v);
+    the lemmas of this file are about [class_pass0]. *)
+Definition class_pass0 (c : cfg) (G : sgraph) (O : oracles) (pass : nat) (st : lst)
+           (all_mode : bool) (classes : list str) (reader : list triple -> consume) : passout :=
+  let head := if all_mode then [EQ (classes_query (c_tau c))] else [] in
+  let cls := if all_mode then all_classes G O pass (c_tau c) else classes in
+  let items := class_items cls in
+  let sel := sel_events (eff_limit c) items in
+  let targets := collect G O pass pass (c_tau c) (eff_limit c) items in
+  let bs := yielder_blocks c G O pass st targets in
+  let evs := match items with
+             | [] => if y_empty_shape_map_guard then [] else [EX XAttr]
+             | _ => cut_at_err (events_of bs)
+             end in
+  let failed := existsb is_EX evs in
+  match reader (yields evs) with
+  | CAll => {| po_events := head ++ sel ++ evs; po_st := last_st st bs; po_ok := negb failed |}
+  | CStop n => {| po_events := head ++ sel ++ cut_after_yields n evs; po_st := state_after n st bs; po_ok := true |}
+  | CErr n => {| po_events := head ++ sel ++ cut_after_yields n evs ++ [EX XAttr]; po_st := state_after n st bs; po_ok := false |}
+  end.
+
 (** ** generic list facts *)
 
 Lemma filter_or_disjoint {A} (f g : A -> bool) (l : list A) :
@@ -141,7 +164,7 @@ Lemma lterm_eqb_eq a b : lterm_eqb a b = true <-> a = b.
 Proof.
   destruct a, b; cbn; try (split; congruence).
   - rewrite str_eqb_eq. split; congruence.
-  - rewrite andb_true_iff, !str_eqb_eq. split; [intros [-> ->]; reflexivity | intros H; inversion H; auto].
+  - rewrite !andb_true_iff, !str_eqb_eq, opt_str_eqb_eq. split; [intros [[-> ->] ->]; reflexivity | intros H; inversion H; auto].
   - rewrite str_eqb_eq. split; congruence.
 Qed.
 
@@ -957,7 +980,7 @@ Section Dom.
     c_allow_num c = allow -> c_tau c = tau -> ord_ok O -> Inv st ->
     (reader = no_reader \/ exists m, reader = consumption tau m (c_cap c)) ->
     let bs := yielder_blocks c G O pass st (ptargets c O pass all_mode classes) in
-    let o := class_pass c G O pass st all_mode classes reader in
+    let o := class_pass0 c G O pass st all_mode classes reader in
     po_ok o = true /\ Inv (po_st o) /\
     ((po_events o = phead c all_mode ++ psel c O pass all_mode classes ++ events_of bs /\ po_st o = last_st st bs) \/
      (exists n, (0 < c_cap c)%Z /\ reader (yields (events_of bs)) = CStop n /\
@@ -970,7 +993,7 @@ Section Dom.
     assert (Hobj : Forall obj_ok (yields (events_of bs))).
     { apply Forall_forall. intros x Hx. apply (Permutation_in _ Y1) in Hx. unfold local_graph in Hx.
       apply in_map_iff in Hx. destruct Hx as [t [<- Hin]]. apply local_obj_ok. eapply touching_incl; eauto. }
-    subst o. unfold class_pass. fold (pcls c O pass all_mode classes).
+    subst o. unfold class_pass0. fold (pcls c O pass all_mode classes).
     change (collect G O pass pass (c_tau c) (eff_limit c) (class_items (pcls c O pass all_mode classes)))
       with (ptargets c O pass all_mode classes). fold bs.
     fold (phead c all_mode). fold (psel c O pass all_mode classes).
@@ -994,16 +1017,12 @@ Section Dom.
   (** *** the two passes *)
   Definition run_class (c : cfg) (all_mode : bool) (classes : list str) (O : oracles) : result :=
     let m := if all_mode then TAll else TClasses classes in
-    let o1 := class_pass c G O 1 lst0 all_mode classes (consumption (c_tau c) m (c_cap c)) in
+    let o1 := class_pass0 c G O 1 lst0 all_mode classes (consumption (c_tau c) m (c_cap c)) in
     if po_ok o1 then
-      let o2 := class_pass c G O 2 (po_st o1) all_mode classes no_reader in
+      let o2 := class_pass0 c G O 2 (po_st o1) all_mode classes no_reader in
       {| r_p1 := po_events o1; r_p2 := po_events o2; r_ok := po_ok o2 |}
     else {| r_p1 := po_events o1; r_p2 := []; r_ok := false |}.
 
-  Lemma run_MClasses c classes O : run c (MClasses classes) G O = run_class c false classes O.
-  Proof. reflexivity. Qed.
-  Lemma run_MAll c O : run c MAll G O = run_class c true [] O.
-  Proof. reflexivity. Qed.
 
   Lemma consume_cap_nostop m cap g st k n : consume_cap tau m cap None g st k <> CStop n.
   Proof.
@@ -1041,7 +1060,7 @@ Section Dom.
     rewrite K1.
     destruct (class_pass_spec c O 2 _ all_mode classes no_reader Hal Ht Ho K2 (or_introl eq_refl))
       as [L1 [L2 L3]].
-    exists (po_st (class_pass c G O 1 lst0 all_mode classes (consumption tau m (c_cap c)))).
+    exists (po_st (class_pass0 c G O 1 lst0 all_mode classes (consumption tau m (c_cap c)))).
     split; [exact K2|]. split; [exact L1|]. cbn [r_p1 r_p2 r_ok]. split.
     - destruct L3 as [[L3 _] | [n [_ [L3 _]]]]; [exact L3 | unfold no_reader in L3; discriminate].
     - destruct K3 as [[K3 K4] | [n [Hc [Hs [K3 K4]]]]]; [left; auto|].
